@@ -77,15 +77,6 @@ from bqskit.ir.operation import Operation
 _logger = logging.getLogger(__name__)
 
 
-QELIB1_GATES = frozenset([
-    'U', 'CX', 'u3', 'u2', 'u1', 'cx', 'id', 'u0', 'u', 'p', 'x', 'y', 'z',
-    'h', 's', 'sdg', 't', 'tdg', 'rx', 'ry', 'rz', 'sx', 'sxdg', 'cz', 'cy',
-    'swap', 'ch', 'ccx', 'cswap', 'crx', 'cry', 'crz', 'cu1', 'cp', 'cu3',
-    'csx', 'cu', 'rxx', 'rzz', 'rccx', 'rc3x', 'c3x', 'c3sqrtx', 'c4x',
-])
-"""The built-in gates and the gates of (Qiskit's) qelib1.inc."""
-
-
 class QubitReg(NamedTuple):
     """Definition of a Qubit Register."""
 
@@ -281,23 +272,6 @@ class OPENQASMVisitor(Visitor):
         self.gate_defs['rccx'] = GateDef('rccx', 0, 3, RCCXGate())
         self.gate_defs['rc3x'] = GateDef('rc3x', 0, 4, RC3XGate())
 
-    def get_gate_def(self, gate_name: str) -> GateDef | CustomGateDef:
-        """
-        Retrieve the definition a gate name refers to.
-
-        The gates of qelib1.inc are always the built-in ones. Any other
-        built-in name is a BQSKit extension, which a program's own
-        definition of a gate with that name replaces.
-        """
-        custom_def = self.custom_gate_defs.get(gate_name)
-        if custom_def is not None and gate_name not in QELIB1_GATES:
-            return custom_def
-        if gate_name in self.gate_defs:
-            return self.gate_defs[gate_name]
-        if custom_def is not None:
-            return custom_def
-        raise LangException('Unrecognized gate: %s.' % gate_name)
-
     def qreg(self, tree: lark.Tree) -> None:
         """Qubit register node visitor."""
         reg_name = tree.children[0]
@@ -336,7 +310,12 @@ class OPENQASMVisitor(Visitor):
 
         # Parse gate object
         gate_name = str(tree.children[0])
-        gate_def = self.get_gate_def(gate_name)
+        if gate_name in self.gate_defs:
+            gate_def: GateDef | CustomGateDef = self.gate_defs[gate_name]
+        elif gate_name in self.custom_gate_defs:
+            gate_def = self.custom_gate_defs[gate_name]
+        else:
+            raise LangException('Unrecognized gate: %s.' % gate_name)
 
         if len(params) != gate_def.num_params:
             raise LangException(
@@ -430,7 +409,12 @@ class OPENQASMVisitor(Visitor):
 
         # Parse gate object
         gate_name = str(tree.children[0])
-        gate_def = self.get_gate_def(gate_name)
+        if gate_name in self.gate_defs:
+            gate_def: GateDef | CustomGateDef = self.gate_defs[gate_name]
+        elif gate_name in self.custom_gate_defs:
+            gate_def = self.custom_gate_defs[gate_name]
+        else:
+            raise LangException('Unrecognized gate: %s.' % gate_name)
 
         if len(param_exps) != gate_def.num_params:
             raise LangException(
